@@ -1,6 +1,129 @@
-(* C02 — property theorems only (placeholder until the meta-theory files land). *)
-From GL Require Import Common.Bytes Lua.Syntax Lua.Values Lua.Eval Lua.Run Lua.EvalFacts.
+(* C02 — property theorems only. Calls in the reference evaluator pass and return exactly the
+   values Lua 5.1 prescribes: for all closures, argument lists, states and fuel. *)
+From GL Require Import Common.Bytes Lua.Syntax Lua.Num Lua.Values Lua.Names Lua.Eval
+  Lua.ValuesFacts Lua.MonadFacts Lua.EvalStepFacts Lua.CallFacts.
 
 Theorem adjust_spec : forall n vs, length (adjust n vs) = n /\ forall i, (i < n)%nat -> nth i (adjust n vs) VNil = nth i vs VNil.
-Proof. exact adjust_spec_lemma. Qed.
+Proof. exact adjust_spec_full_lemma. Qed.
 Print Assumptions adjust_spec.
+
+Theorem adjust_length : forall n vs, length (adjust n vs) = n.
+Proof. exact adjust_length_lemma. Qed.
+Print Assumptions adjust_length.
+
+Theorem adjust_app_nil_pad : forall n vs, adjust n vs = firstn n vs ++ repeat VNil (n - length vs).
+Proof. exact adjust_app_nil_pad_lemma. Qed.
+Print Assumptions adjust_app_nil_pad.
+
+Theorem adjust_exact : forall vs, adjust (length vs) vs = vs.
+Proof. exact adjust_exact_lemma. Qed.
+Print Assumptions adjust_exact.
+
+(* a Lua call: the body runs in exactly this state, environment and `...` *)
+Theorem call_setup : forall n fr r args s,
+  let c := nth r (clos s) dummy_clo in
+  call (S n) fr (VFun r) args s =
+  bind (block n (mkCtx (callee_varargs c args) fr r) (callee_env s c) (c_body c) [] 0 (callee_state s c args))
+       ret_of_signal.
+Proof. exact call_fun_setup_lemma. Qed.
+Print Assumptions call_setup.
+
+Theorem bind_params_spec : forall s c args,
+  let np := length (c_params c) in
+  let s1 := callee_state s c args in
+  (forall i, (i < np)%nat ->
+     nth i (seq (length (cells s)) np) O = (length (cells s) + i)%nat /\
+     nth (length (cells s) + i) (cells s1) VNil = nth i args VNil) /\
+  (forall j, (j < length (cells s))%nat -> nth j (cells s1) VNil = nth j (cells s) VNil) /\
+  callee_varargs c args = (if c_vararg c then skipn np args else []) /\
+  (has_arg_table c = true ->
+     nth (length (tabs s)) (tabs s1) empty_tab = arg_table (callee_varargs c args) /\
+     kv_get (t_kv (arg_table (callee_varargs c args))) (VStr s_n) = vint (len (callee_varargs c args)) /\
+     nth (length (cells s) + np) (cells s1) VNil = VTab (length (tabs s))) /\
+  clos s1 = clos s /\ cos s1 = cos s /\ cur s1 = cur s /\ trace s1 = trace s.
+Proof. exact bind_params_spec_lemma. Qed.
+Print Assumptions bind_params_spec.
+
+(* expression lists *)
+Theorem eval_list_with_spec : forall one multi init last s vs s1 l s2,
+  evals_seq one init s vs s1 -> multi last s1 = Ret l s2 ->
+  eval_list_with one multi (init ++ [last]) s = Ret (vs ++ l) s2.
+Proof. exact eval_list_with_spec_lemma. Qed.
+Print Assumptions eval_list_with_spec.
+
+Theorem eval_list_with_general : forall one multi init last s,
+  req (eval_list_with one multi (init ++ [last]) s)
+      (bind (mapM one init s) (fun vs s1 => bind (multi last s1) (fun l s2 => Ret (vs ++ l) s2))).
+Proof. exact eval_list_with_mapM_lemma. Qed.
+Print Assumptions eval_list_with_general.
+
+Theorem eval_list_with_stops_at_error : forall one multi init e rest s vs s1 v s2,
+  evals_seq one init s vs s1 -> rest <> [] -> one e s1 = Err v s2 ->
+  eval_list_with one multi (init ++ e :: rest) s = Err v s2.
+Proof. exact eval_list_with_err_lemma. Qed.
+Print Assumptions eval_list_with_stops_at_error.
+
+Theorem eparen_truncates : forall n cx ln en e s,
+  eval_multi (S (S n)) cx ln en (EParen e) s = bind (eval_e n cx ln en e s) (fun v s1 => Ret [v] s1).
+Proof. exact eparen_truncates_lemma. Qed.
+Print Assumptions eparen_truncates.
+
+Theorem call_single_value : forall n cx ln en f args s,
+  eval_e (S n) cx ln en (ECall f args) s = bind (eval_multi n cx ln en (ECall f args) s) (fun vs s1 => Ret (first vs) s1).
+Proof. exact call_single_value_lemma. Qed.
+Print Assumptions call_single_value.
+
+Theorem varargs_last_all : forall n cx ln en s, eval_multi (S n) cx ln en EVarargs s = Ret (cx_va cx) s.
+Proof. exact varargs_multi_lemma. Qed.
+Print Assumptions varargs_last_all.
+
+Theorem varargs_middle_first : forall n cx ln en s, eval_e (S n) cx ln en EVarargs s = Ret (first (cx_va cx)) s.
+Proof. exact varargs_single_lemma. Qed.
+Print Assumptions varargs_middle_first.
+
+Theorem method_call_self : forall n cx ln en o m args s,
+  eval_multi (S n) cx ln en (EMeth o m args) s =
+  bind (eval_e n cx ln en o s) (fun ov =>
+    do fv <- index n (here cx ln) ov (VStr m) 100;
+    do avs <- eval_list_with (eval_e n cx ln en) (eval_multi n cx ln en) args;
+    call n (here cx ln) fv (ov :: avs)).
+Proof. exact meth_call_lemma. Qed.
+Print Assumptions method_call_self.
+
+(* select and unpack *)
+Theorem select_spec : forall n fr f z rest s i,
+  f_to_Z f = Some z -> 0 < z ->
+  exists vs, builtin_call (S n) fr BSelect (VNum f :: rest) s = Ret vs s /\
+             nth i vs VNil = nth (Z.to_nat (z - 1) + i) rest VNil /\
+             length vs = (length rest - Z.to_nat (z - 1))%nat.
+Proof. exact select_nth_lemma. Qed.
+Print Assumptions select_spec.
+
+Theorem select_negative : forall n fr f z rest s,
+  f_to_Z f = Some z -> z < 0 -> 0 <= len rest + z ->
+  builtin_call (S n) fr BSelect (VNum f :: rest) s = Ret (skipn (Z.to_nat (len rest + z)) rest) s.
+Proof. exact select_neg_lemma. Qed.
+Print Assumptions select_negative.
+
+Theorem select_count : forall n fr rest s,
+  builtin_call (S n) fr BSelect (VStr s_hash :: rest) s = Ret [vint (len rest)] s.
+Proof. exact select_hash_lemma. Qed.
+Print Assumptions select_count.
+
+Theorem unpack_spec : forall n fr r fi fj i j rest s,
+  f_to_Z fi = Some i -> f_to_Z fj = Some j -> j - i <= 100000 ->
+  let kv := t_kv (nth r (tabs s) empty_tab) in
+  builtin_call (S n) fr BUnpack (VTab r :: VNum fi :: VNum fj :: rest) s =
+    Ret (seq_get kv i (Z.to_nat (j - i + 1))) s /\
+  length (seq_get kv i (Z.to_nat (j - i + 1))) = Z.to_nat (j - i + 1) /\
+  (forall k, (k < Z.to_nat (j - i + 1))%nat ->
+     nth k (seq_get kv i (Z.to_nat (j - i + 1))) VNil = kv_get kv (vint (i + Z.of_nat k))).
+Proof. exact unpack_spec_lemma. Qed.
+Print Assumptions unpack_spec.
+
+Theorem unpack_default : forall n fr r s,
+  let kv := t_kv (nth r (tabs s) empty_tab) in
+  border_unique kv = true -> border kv - 1 <= 100000 ->
+  builtin_call (S n) fr BUnpack [VTab r] s = Ret (seq_get kv 1 (Z.to_nat (border kv))) s.
+Proof. exact unpack_default_lemma. Qed.
+Print Assumptions unpack_default.
